@@ -1,4 +1,5 @@
 import SafeC.Props.C09
+import SafeC.Props.C09Gram
 import SafeC.Proofs.FmtEngine
 import SafeC.Proofs.PrintfN
 import SafeC.Proofs.PrintfFrame
@@ -48,6 +49,18 @@ example : engineRejects "ab%5.3lld%%%-08.*hhn x".toList = true :=
 theorem engine_gram_LInt_witness :
     PParse ['%', 'L', 'd'] false ∧ SafeC.Fmt.engine ['%', 'L', 'd'] = some .illegalLInt :=
   ⟨PParse.conv (d := ⟨[], [], [], ['L']⟩) (c := 'd') (by decide) (by decide) PParse.nil, by decide⟩
+
+/-- **the model the correspondence run compares** (`enginePrintfRejects` = pre-scan or parser stop) on the grammar: a format
+    is rejected iff it has an `n` conversion or the parser stopped on `%L` + integer conversion — sound and complete -/
+theorem engine_entry_gram_exact (fmt : Str) (b : Bool) (h : PParse fmt b) :
+    enginePrintfRejects fmt = true ↔ (b = true ∨ SafeC.Fmt.engine fmt = some .illegalLInt) := by
+  cases b with
+  | true =>
+    have := engine_rejects_gram fmt h
+    simp [enginePrintfRejects, this]
+  | false =>
+    have hp := prescan_sound_printf fmt h
+    rcases engine_gram_no_n h with e | e <;> simp [enginePrintfRejects, engineRejects, hp, e]
 
 /-! ## 2. the full engine takes the error exit -/
 
